@@ -139,4 +139,810 @@ theorem retryOut_out (env : Env) (n : Node) (txs : List Tx) (o : Nat × Msg) (h 
   obtain ⟨t, _, ht⟩ := h
   exact ⟨_, privateRetry_out _ _ _ _ ht⟩
 
+
+/-! ### membership helpers -/
+
+theorem getTx_mem {d : List Tx} {r : Ref} {t : Tx} (h : getTx d r = some t) : t ∈ d :=
+  List.mem_of_find?_eq_some h
+
+theorem getTx_ref {d : List Tx} {r : Ref} {t : Tx} (h : getTx d r = some t) : t.ref = r := by
+  have := List.find?_some h
+  simpa using this
+
+theorem findBetween_mem {d : List Tx} {a b : Nat} {t : Tx} (h : t ∈ findBetween d a b) : t ∈ d := by
+  unfold findBetween at h
+  have := (sortBy_perm txLt _).mem_iff.mp h
+  exact (List.mem_filter.mp this).1
+
+/-- every element of a collected list with a payload is a public transaction of the input, carrying exactly
+    what the store holds under its payload hash; private transactions carry nothing -/
+theorem collect_elems (n : Node) : ∀ (l : List Tx) (r : List NetTx), collect n l = some r →
+    ∀ e ∈ r, ∃ t ∈ l, e.tx = some t ∧
+      ((t.pal = [] ∧ e.payload = readPayload n t.payloadHash ∧ e.payload.isSome) ∨ (t.pal ≠ [] ∧ e.payload = none)) := by
+  intro l
+  induction l with
+  | nil => intro r h e he; simp [collect] at h; subst h; cases he
+  | cons t ts ih =>
+    intro r h e he
+    unfold collect at h
+    split at h
+    · rename_i hp
+      split at h
+      · cases h
+      · rename_i p hrp
+        cases hc : collect n ts with
+        | none => simp [hc] at h
+        | some r' =>
+          simp [hc] at h
+          subst h
+          rcases List.mem_cons.mp he with rfl | he'
+          · exact ⟨t, List.mem_cons_self, rfl, Or.inl ⟨by simpa using hp, by simp [hrp], by simp⟩⟩
+          · obtain ⟨t', ht', h2⟩ := ih r' hc e he'
+            exact ⟨t', List.mem_cons_of_mem _ ht', h2⟩
+    · rename_i hp
+      cases hc : collect n ts with
+      | none => simp [hc] at h
+      | some r' =>
+        simp [hc] at h
+        subst h
+        rcases List.mem_cons.mp he with rfl | he'
+        · exact ⟨t, List.mem_cons_self, rfl, Or.inr ⟨by simpa using hp, rfl⟩⟩
+        · obtain ⟨t', ht', h2⟩ := ih r' hc e he'
+          exact ⟨t', List.mem_cons_of_mem _ ht', h2⟩
+
+
+/-! ### the DAG field is touched only by `addTx` -/
+
+@[simp] theorem sendRequest_dag (cfg : Cfg) (n : Node) (peer : Nat) (data : ConvData) (mk : Cid → Msg) :
+    (sendRequest cfg n peer data mk).node.dag = n.dag := by
+  unfold sendRequest startConversation
+  split
+  · rfl
+  · rename_i n' cid h
+    split at h
+    · cases h
+    · simp only [Option.some.injEq, Prod.mk.injEq] at h
+      obtain ⟨h1, _⟩ := h
+      subst h1
+      split <;> rfl
+
+@[simp] theorem sendRequest_payloads (cfg : Cfg) (n : Node) (peer : Nat) (data : ConvData) (mk : Cid → Msg) :
+    (sendRequest cfg n peer data mk).node.payloads = n.payloads := by
+  unfold sendRequest startConversation
+  split
+  · rfl
+  · rename_i n' cid h
+    split at h
+    · cases h
+    · simp only [Option.some.injEq, Prod.mk.injEq] at h
+      obtain ⟨h1, _⟩ := h
+      subst h1
+      split <;> rfl
+
+@[simp] theorem sendState_dag (cfg : Cfg) (n : Node) (peer : Nat) (x : Ref) (c : Nat) : (sendState cfg n peer x c).node.dag = n.dag := by
+  unfold sendState; simp
+@[simp] theorem sendListQuery_dag (cfg : Cfg) (n : Node) (peer : Nat) (r : List Ref) : (sendListQuery cfg n peer r).node.dag = n.dag := by
+  unfold sendListQuery; simp
+@[simp] theorem sendRangeQuery_dag (cfg : Cfg) (n : Node) (peer : Nat) (a b : Nat) : (sendRangeQuery cfg n peer a b).node.dag = n.dag := by
+  unfold sendRangeQuery; simp
+@[simp] theorem convDone_dag (n : Node) (cid : Cid) : (convDone n cid).dag = n.dag := rfl
+@[simp] theorem resetTimeout_dag (cfg : Cfg) (n : Node) (cid : Cid) : (resetTimeout cfg n cid).dag = n.dag := rfl
+@[simp] theorem gossipReceived_dag (cfg : Cfg) (n : Node) (p : Nat) (r : List Ref) : (gossipReceived cfg n p r).dag = n.dag := rfl
+@[simp] theorem transactionRegistered_dag (cfg : Cfg) (n : Node) (r : Ref) : (transactionRegistered cfg n r).dag = n.dag := rfl
+@[simp] theorem evict_dag (n : Node) : (evict n).dag = n.dag := rfl
+
+theorem handleGossip_dag (cfg : Cfg) (n : Node) (peer : Peer) (x : Ref) (lc : Nat) (refs : List Ref) :
+    (handleGossip cfg n peer x lc refs).node.dag = n.dag := by
+  unfold handleGossip
+  simp only
+  split
+  · rfl
+  · split <;> (simp; split <;> rfl)
+
+theorem handleState_dag (cfg : Cfg) (n : Node) (peer : Peer) (cid : Cid) (x : Ref) (lc : Nat) :
+    (handleState cfg n peer cid x lc).node.dag = n.dag := by
+  unfold handleState; split <;> rfl
+
+theorem handleTransactionSet_dag (cfg : Cfg) (env : Env) (n : Node) (peer : Peer) (cid : Cid) (a b : Nat) (i : IbltV) :
+    (handleTransactionSet cfg env n peer cid a b i).node.dag = n.dag := by
+  unfold handleTransactionSet
+  split
+  · rfl
+  · simp only
+    split
+    · rfl
+    · split <;> simp
+    · split
+      · simp
+      · split
+        · split <;> simp
+        · rfl
+
+theorem handleListQuery_node (cfg : Cfg) (env : Env) (n : Node) (peer : Peer) (cid : Cid) (refs : List Ref) :
+    (handleTransactionListQuery cfg env n peer cid refs).node = n := by
+  unfold handleTransactionListQuery
+  split
+  · rfl
+  · split <;> rfl
+
+theorem handleRangeQuery_node (cfg : Cfg) (n : Node) (peer : Peer) (cid : Cid) (a b : Nat) :
+    (handleTransactionRangeQuery cfg n peer cid a b).node = n := by
+  unfold handleTransactionRangeQuery
+  split
+  · rfl
+  · simp only; split <;> rfl
+
+theorem handlePayloadQuery_node (env : Env) (n : Node) (peer : Peer) (ref : Ref) :
+    (handleTransactionPayloadQuery env n peer ref).node = n := by
+  unfold handleTransactionPayloadQuery
+  split
+  · rfl
+  · simp only
+    split
+    · split
+      · rfl
+      · split
+        · rfl
+        · rfl
+        · split
+          · rfl
+          · split <;> rfl
+    · split <;> rfl
+
+theorem handlePayload_dag (n : Node) (ref : Ref) (data : Option Payload) :
+    (handleTransactionPayload n ref data).node.dag = n.dag := by
+  unfold handleTransactionPayload
+  split
+  · rfl
+  · split
+    · rfl
+    · split
+      · rfl
+      · split
+        · rfl
+        · split
+          · rfl
+          · simp only; split <;> rfl
+
+/-- a valid DAG, newest first: every transaction has a good signature verdict, is new, has all its prevs before it,
+    carries the right clock, and there is at most one root -/
+inductive DagOK : List Tx → Prop where
+  | nil : DagOK []
+  | cons (tx : Tx) (d : List Tx) : DagOK d → tx.sigOK = true → present d tx.ref = false →
+      (∀ p ∈ tx.prevs, present d p = true) → tx.clock = expectedClock d tx.prevs →
+      (tx.prevs = [] → ∀ t ∈ d, t.clock ≠ 0) → DagOK (tx :: d)
+
+theorem addCheck_added {d : List Tx} {tx : Tx} {pl : Option Payload} (h : addCheck d tx pl = .added) :
+    tx.sigOK = true ∧ present d tx.ref = false ∧ (∀ p ∈ tx.prevs, present d p = true) ∧
+    tx.clock = expectedClock d tx.prevs ∧ (tx.prevs = [] → ∀ t ∈ d, t.clock ≠ 0) ∧
+    (∀ p, pl = some p → p.sha = tx.payloadHash) := by
+  unfold addCheck at h
+  split at h
+  · cases h
+  · rename_i h1
+    split at h
+    · cases h
+    · rename_i h2
+      split at h
+      · cases h
+      · rename_i h3
+        split at h
+        · cases h
+        · rename_i h4
+          split at h
+          · cases h
+          · rename_i h5
+            split at h
+            · cases h
+            · rename_i h6
+              refine ⟨by simpa using h4, by simpa using h1, ?_, by simpa using h3, ?_, ?_⟩
+              · intro p hp
+                have := h2
+                simp only [Bool.not_eq_true, Bool.not_eq_eq_eq_not, Bool.not_true, Bool.not_eq_false] at this
+                exact List.all_eq_true.mp this p hp
+              · intro he t ht hc
+                apply h6
+                simp only [Bool.and_eq_true, List.isEmpty_iff, List.any_eq_true]
+                exact ⟨he, t, ht, by simpa using hc⟩
+              · intro p hp
+                subst hp
+                simpa [payloadMismatch] using h5
+
+theorem addTx_cases (cfg : Cfg) (env : Env) (n : Node) (tx : Tx) (pl : Option Payload) :
+    ((addTx cfg env n tx pl).2.2 = .added ∧ addCheck n.dag tx pl = .added ∧ (addTx cfg env n tx pl).1 = commitTx cfg n tx pl) ∨
+    ((addTx cfg env n tx pl).2.2 ≠ .added ∧ (addTx cfg env n tx pl).1 = n ∧ (addTx cfg env n tx pl).2.2 = addCheck n.dag tx pl) := by
+  unfold addTx
+  split
+  · rename_i h; exact Or.inl ⟨rfl, h, rfl⟩
+  · rename_i r h; exact Or.inr ⟨by simpa using h, rfl, rfl⟩
+
+@[simp] theorem commitTx_dag (cfg : Cfg) (n : Node) (tx : Tx) (pl : Option Payload) : (commitTx cfg n tx pl).dag = tx :: n.dag := rfl
+
+theorem dagOK_commit (cfg : Cfg) (n : Node) (tx : Tx) (pl : Option Payload) (h : DagOK n.dag) (ha : addCheck n.dag tx pl = .added) :
+    DagOK (commitTx cfg n tx pl).dag := by
+  obtain ⟨h1, h2, h3, h4, h5, _⟩ := addCheck_added ha
+  exact DagOK.cons tx n.dag h h1 h2 h3 h4 h5
+
+/-- what `addLoop` does to the DAG: it prepends some of the offered transactions, each admitted by `addCheck` -/
+theorem addLoop_dag (cfg : Cfg) (env : Env) : ∀ (l : List (Tx × Option Payload)) (n : Node), DagOK n.dag →
+    DagOK (addLoop cfg env n l).node.dag ∧
+    ∃ added, (addLoop cfg env n l).node.dag = added ++ n.dag ∧ ∀ t ∈ added, t.sigOK = true ∧ ∃ x ∈ l, x.1 = t := by
+  intro l
+  induction l with
+  | nil => intro n h; exact ⟨by simpa [addLoop] using h, [], by simp [addLoop], by simp⟩
+  | cons x xs ih =>
+    intro n h
+    obtain ⟨tx, pl⟩ := x
+    unfold addLoop
+    split
+    · exact ⟨h, [], by simp, by simp⟩
+    · rcases addTx_cases cfg env n tx pl with ⟨hr, hc, hn⟩ | ⟨hr, hn, hres⟩
+      · split
+        · rename_i n1 out1 heq
+          have hn1 : n1 = commitTx cfg n tx pl := by rw [← hn, heq]
+          subst hn1
+          obtain ⟨ok, added, hd, hmem⟩ := ih (commitTx cfg n tx pl) (dagOK_commit cfg n tx pl h hc)
+          refine ⟨ok, added ++ [tx], by simp [hd], ?_⟩
+          intro t ht
+          rcases List.mem_append.mp ht with ht | ht
+          · obtain ⟨s, y, hy, hy2⟩ := hmem t ht
+            exact ⟨s, y, List.mem_cons_of_mem _ hy, hy2⟩
+          · simp only [List.mem_singleton] at ht
+            subst ht
+            exact ⟨(addCheck_added hc).1, (t, pl), List.mem_cons_self, rfl⟩
+        · rename_i heq; rw [heq] at hr; cases hr
+        · rename_i heq; rw [heq] at hr; cases hr
+        · rename_i r hne1 hne2 hne3 heq
+          exact ⟨h, [], by simp, by simp⟩
+      · split
+        · rename_i heq; rw [heq] at hr; exact absurd rfl hr
+        · rename_i n1 _ heq
+          have hn1 : n1 = n := by rw [← hn, heq]
+          subst hn1
+          obtain ⟨ok, added, hd, hmem⟩ := ih n1 h
+          refine ⟨ok, added, hd, ?_⟩
+          intro t ht
+          obtain ⟨s, y, hy, hy2⟩ := hmem t ht
+          exact ⟨s, y, List.mem_cons_of_mem _ hy, hy2⟩
+        · exact ⟨h, [], by simp, by simp⟩
+        · exact ⟨h, [], by simp, by simp⟩
+
+
+/-- transactions a message carries -/
+def msgTxs : Msg → List Tx
+  | .txList _ _ _ txs => txs.filterMap (·.tx)
+  | _ => []
+
+theorem parseAll_mem : ∀ (txs : List NetTx) (ps : List (Tx × Option Payload)), parseAll txs = some ps →
+    ∀ x ∈ ps, x.1 ∈ txs.filterMap (·.tx) := by
+  intro txs
+  induction txs with
+  | nil => intro ps h x hx; simp [parseAll] at h; subst h; cases hx
+  | cons t ts ih =>
+    intro ps h x hx
+    unfold parseAll at h
+    split at h
+    · cases h
+    · rename_i y hy
+      cases hp : parseAll ts with
+      | none => simp [hp] at h
+      | some ps' =>
+        simp [hp] at h
+        subst h
+        rcases List.mem_cons.mp hx with rfl | hx'
+        · simp [List.filterMap_cons, hy]
+        · have := ih ps' hp x hx'
+          simp only [List.filterMap_cons, hy]
+          exact List.mem_cons_of_mem _ this
+
+/-- **the only way a DAG changes**: a TransactionList whose conversation check passed; what is added is a list of
+    transactions of that message with a good signature verdict, each admitted by `addCheck`; the result is a valid DAG -/
+theorem handleTransactionList_dag (cfg : Cfg) (env : Env) (n : Node) (peer : Peer) (cid : Cid) (num total : Nat) (txs : List NetTx)
+    (h : DagOK n.dag) :
+    DagOK (handleTransactionList cfg env n peer cid num total txs).node.dag ∧
+    ∃ added, (handleTransactionList cfg env n peer cid num total txs).node.dag = added ++ n.dag ∧
+      (added ≠ [] → convCheck n cid (.txList cid num total txs) = none) ∧
+      ∀ t ∈ added, t.sigOK = true ∧ t ∈ txs.filterMap (·.tx) := by
+  unfold handleTransactionList
+  split
+  · exact ⟨h, [], by simp, by simp, by simp⟩
+  · rename_i hcheck
+    split
+    · exact ⟨h, [], by simp, by simp, by simp⟩
+    · rename_i ps hps
+      obtain ⟨ok, added, hd, hmem⟩ := addLoop_dag cfg env ps n h
+      have hm : ∀ t ∈ added, t.sigOK = true ∧ t ∈ txs.filterMap (·.tx) := by
+        intro t ht
+        obtain ⟨s, x, hx, hx2⟩ := hmem t ht
+        exact ⟨s, by rw [← hx2]; exact parseAll_mem txs ps hps x hx⟩
+      simp only
+      split
+      · refine ⟨?_, added, ?_, fun _ => hcheck, hm⟩
+        · split <;> simpa using ok
+        · split <;> simpa using hd
+      · exact ⟨ok, added, hd, fun _ => hcheck, hm⟩
+      · exact ⟨by simpa using ok, added, by simpa using hd, fun _ => hcheck, hm⟩
+      · exact ⟨ok, added, hd, fun _ => hcheck, hm⟩
+
+theorem handle_dag (cfg : Cfg) (env : Env) (n : Node) (peer : Peer) (m : Msg) (h : DagOK n.dag) :
+    DagOK (handle cfg env n peer m).node.dag ∧
+    ∃ added, (handle cfg env n peer m).node.dag = added ++ n.dag ∧
+      (added ≠ [] → ∃ cid num total txs, m = .txList cid num total txs ∧ convCheck n cid m = none) ∧
+      ∀ t ∈ added, t.sigOK = true ∧ t ∈ msgTxs m := by
+  have same : ∀ r : HR, r.node.dag = n.dag → DagOK r.node.dag ∧ ∃ added, r.node.dag = added ++ n.dag ∧
+      (added ≠ [] → ∃ cid num total txs, m = .txList cid num total txs ∧ convCheck n cid m = none) ∧
+      ∀ t ∈ added, t.sigOK = true ∧ t ∈ msgTxs m := by
+    intro r hr
+    exact ⟨by rw [hr]; exact h, [], by simp [hr], by simp, by simp⟩
+  cases m with
+  | gossip x lc refs => exact same _ (handleGossip_dag ..)
+  | state cid x lc => exact same _ (handleState_dag ..)
+  | txSet cid a b i => exact same _ (handleTransactionSet_dag ..)
+  | listQuery cid refs => exact same _ (by simp [handle, handleListQuery_node])
+  | rangeQuery cid a b => exact same _ (by simp [handle, handleRangeQuery_node])
+  | payloadQuery ref => exact same _ (by simp [handle, handlePayloadQuery_node])
+  | payload ref data => exact same _ (handlePayload_dag ..)
+  | diagnostics => exact same _ rfl
+  | unsupported => exact same _ rfl
+  | txList cid num total txs =>
+    obtain ⟨ok, added, hd, hc, hm⟩ := handleTransactionList_dag cfg env n peer cid num total txs h
+    exact ⟨ok, added, hd, fun hne => ⟨cid, num, total, txs, rfl, hc hne⟩, hm⟩
+
+/-- stale, duplicated, unsolicited or conversation-mismatching responses change NOTHING in the node -/
+theorem rejected_response_noop (cfg : Cfg) (env : Env) (n : Node) (peer : Peer) (cid : Cid) :
+    (∀ num total txs, convCheck n cid (.txList cid num total txs) ≠ none →
+        (handle cfg env n peer (.txList cid num total txs)).node = n ∧ (handle cfg env n peer (.txList cid num total txs)).out = []) ∧
+    (∀ lcReq lc iblt, convCheck n cid (.txSet cid lcReq lc iblt) ≠ none →
+        (handle cfg env n peer (.txSet cid lcReq lc iblt)).node = n ∧ (handle cfg env n peer (.txSet cid lcReq lc iblt)).out = []) := by
+  constructor
+  · intro num total txs hc
+    simp only [handle]
+    unfold handleTransactionList
+    split
+    · exact ⟨rfl, rfl⟩
+    · rename_i hnone; exact absurd hnone hc
+  · intro lcReq lc iblt hc
+    simp only [handle]
+    unfold handleTransactionSet
+    split
+    · exact ⟨rfl, rfl⟩
+    · rename_i hnone; exact absurd hnone hc
+
+
+
+/-! ### per-handler: everything sent by these handlers is a request-type message (no transactions, no payload bytes) -/
+
+theorem sendRequest_req (cfg : Cfg) (n : Node) (peer : Nat) (data : ConvData) (mk : Cid → Msg)
+    (hmk : ∀ c, isRequest (mk c) = true) (o : Nat × Msg) (h : o ∈ (sendRequest cfg n peer data mk).out) :
+    isRequest o.2 = true := by
+  obtain ⟨cid, rfl⟩ := sendRequest_out cfg n peer data mk o h
+  exact hmk cid
+
+theorem sendState_req (cfg : Cfg) (n : Node) (peer : Nat) (x : Ref) (c : Nat) (o : Nat × Msg)
+    (h : o ∈ (sendState cfg n peer x c).out) : isRequest o.2 = true :=
+  sendRequest_req cfg n peer _ _ (fun _ => rfl) o h
+
+theorem sendListQuery_req (cfg : Cfg) (n : Node) (peer : Nat) (refs : List Ref) (o : Nat × Msg)
+    (h : o ∈ (sendListQuery cfg n peer refs).out) : isRequest o.2 = true :=
+  sendRequest_req cfg n peer _ _ (fun _ => rfl) o h
+
+theorem sendRangeQuery_req (cfg : Cfg) (n : Node) (peer : Nat) (a b : Nat) (o : Nat × Msg)
+    (h : o ∈ (sendRangeQuery cfg n peer a b).out) : isRequest o.2 = true :=
+  sendRequest_req cfg n peer _ _ (fun _ => rfl) o h
+
+theorem gossip_req (cfg : Cfg) (n : Node) (peer : Peer) (x : Ref) (lc : Nat) (refs : List Ref) (o : Nat × Msg)
+    (h : o ∈ (handleGossip cfg n peer x lc refs).out) : isRequest o.2 = true := by
+  unfold handleGossip at h
+  simp only at h
+  split at h
+  · cases h
+  · split at h
+    · exact sendListQuery_req _ _ _ _ o h
+    · exact sendState_req _ _ _ _ _ o h
+
+theorem state_req (cfg : Cfg) (n : Node) (peer : Peer) (cid : Cid) (x : Ref) (lc : Nat) (o : Nat × Msg)
+    (h : o ∈ (handleState cfg n peer cid x lc).out) : isRequest o.2 = true := by
+  unfold handleState at h
+  split at h
+  · cases h
+  · simp only [List.mem_singleton] at h; subst h; rfl
+
+theorem set_req (cfg : Cfg) (env : Env) (n : Node) (peer : Peer) (cid : Cid) (a b : Nat) (i : IbltV) (o : Nat × Msg)
+    (h : o ∈ (handleTransactionSet cfg env n peer cid a b i).out) : isRequest o.2 = true := by
+  unfold handleTransactionSet at h
+  split at h
+  · cases h
+  · simp only at h
+    split at h
+    · cases h
+    · split at h
+      · exact sendRangeQuery_req _ _ _ _ _ o h
+      · exact sendState_req _ _ _ _ _ o h
+    · split at h
+      · exact sendListQuery_req _ _ _ _ o h
+      · split at h
+        · split at h
+          · exact sendRangeQuery_req _ _ _ _ _ o h
+          · exact sendRangeQuery_req _ _ _ _ _ o h
+        · cases h
+
+theorem pq_req {o : Nat × Msg} (h : ∃ r, o.2 = .payloadQuery r) : isRequest o.2 = true := by
+  obtain ⟨r, h⟩ := h; rw [h]; rfl
+
+theorem txlist_req (cfg : Cfg) (env : Env) (n : Node) (peer : Peer) (cid : Cid) (a b : Nat) (txs : List NetTx) (o : Nat × Msg)
+    (h : o ∈ (handleTransactionList cfg env n peer cid a b txs).out) : isRequest o.2 = true := by
+  unfold handleTransactionList at h
+  split at h
+  · cases h
+  · split at h
+    · cases h
+    · rename_i ps _
+      simp only at h
+      split at h
+      · exact pq_req (addLoop_out cfg env ps n o h)
+      · exact pq_req (addLoop_out cfg env ps n o h)
+      · simp only [List.mem_append] at h
+        rcases h with h | h
+        · exact pq_req (addLoop_out cfg env ps n o h)
+        · exact sendState_req _ _ _ _ _ o h
+      · exact pq_req (addLoop_out cfg env ps n o h)
+
+
+
+
+/-! ### the network: steps and schedules -/
+
+
+
+/-- transactions a step shows to a node -/
+def stepTxs (w : World) : Step → List Tx
+  | .deliver i _ => ((w.sent[i]?).map (fun pk => msgTxs pk.msg)).getD []
+  | .inject _ _ m _ => msgTxs m
+  | .create _ tx _ _ => [tx]
+  | _ => []
+
+/-- effect of replacing node `i` by a node whose DAG extends the old one -/
+theorem set_dag (w w' : World) (i : Nat) (n n' : Node) (hw : w'.nodes = w.nodes.set i n') (hn : w.nodes[i]? = some n) (added : List Tx)
+    (hd : n'.dag = added ++ n.dag) (j : Nat) :
+    World.dag w' j = (if i = j then added else []) ++ World.dag w j := by
+  unfold World.dag
+  rw [hw]
+  simp only [List.getElem?_set]
+  by_cases hij : i = j
+  · subst hij
+    obtain ⟨hlt, heq⟩ := List.getElem?_eq_some_iff.mp hn
+    simp [hlt, hn, hd, heq]
+  · simp [hij]
+
+theorem set_ok (w : World) (i : Nat) (n' : Node) (hok : ∀ n ∈ w.nodes, DagOK n.dag) (h' : DagOK n'.dag) :
+    ∀ n ∈ w.nodes.set i n', DagOK n.dag := by
+  intro n hn
+  rcases List.mem_or_eq_of_mem_set hn with h | h
+  · exact hok n h
+  · subst h; exact h'
+
+/-- one step of ANY kind: every DAG is extended (possibly by nothing) by valid-verdict transactions the step showed,
+    and stays a valid DAG -/
+theorem step_dag (cfg : Cfg) (w : World) (s : Step) (hok : ∀ n ∈ w.nodes, DagOK n.dag) :
+    (∀ n ∈ (w.step cfg s).nodes, DagOK n.dag) ∧
+    ∀ j, ∃ added, World.dag (w.step cfg s) j = added ++ World.dag w j ∧ ∀ t ∈ added, t.sigOK = true ∧ t ∈ stepTxs w s := by
+  have same : ∀ w' : World, w'.nodes = w.nodes → (∀ n ∈ w'.nodes, DagOK n.dag) ∧
+      ∀ j, ∃ added, World.dag w' j = added ++ World.dag w j ∧ ∀ t ∈ added, t.sigOK = true ∧ t ∈ stepTxs w s := by
+    intro w' h
+    refine ⟨by rw [h]; exact hok, fun j => ⟨[], by simp [World.dag, h], by simp⟩⟩
+  have recv : ∀ (src dst : Nat) (m : Msg) (env : Env), (∀ t ∈ msgTxs m, t ∈ stepTxs w s) →
+      (∀ n ∈ (w.recv cfg src dst m env).1.nodes, DagOK n.dag) ∧
+      ∀ j, ∃ added, World.dag (w.recv cfg src dst m env).1 j = added ++ World.dag w j ∧
+        ∀ t ∈ added, t.sigOK = true ∧ t ∈ stepTxs w s := by
+    intro src dst m env hm
+    unfold World.recv
+    split
+    · exact same w rfl
+    · rename_i n hn
+      split
+      · exact same w rfl
+      · rename_i p _
+        have hmem : n ∈ w.nodes := List.mem_of_getElem? hn
+        obtain ⟨ok, added, hd, _, hadd⟩ := handle_dag cfg env n p m (hok n hmem)
+        refine ⟨set_ok w dst _ hok ok, fun j => ?_⟩
+        simp only [World.post]
+        rw [set_dag w _ dst n _ rfl hn added hd j]
+        refine ⟨_, rfl, fun t ht => ?_⟩
+        split at ht
+        · exact ⟨(hadd t ht).1, hm t (hadd t ht).2⟩
+        · cases ht
+  cases s with
+  | deliver i env =>
+    simp only [World.step, World.stepR]
+    split
+    · exact same w rfl
+    · rename_i pk hpk
+      exact recv pk.src pk.dst pk.msg env (fun t ht => by simp [stepTxs, hpk, ht])
+  | inject src dst m env =>
+    simp only [World.step, World.stepR]
+    exact recv src dst m env (fun t ht => by simpa [stepTxs] using ht)
+  | tick i peer =>
+    simp only [World.step, World.stepR]
+    split
+    · exact same w rfl
+    · rename_i n hn
+      have hmem : n ∈ w.nodes := List.mem_of_getElem? hn
+      have hd : (gossipTick n peer).node.dag = [] ++ n.dag := by
+        unfold gossipTick
+        split
+        · rfl
+        · split <;> rfl
+      refine ⟨set_ok w i _ hok (by rw [hd]; exact hok n hmem), fun j => ?_⟩
+      rw [set_dag w _ i n _ rfl hn [] hd j]
+      exact ⟨_, rfl, by intro t ht; split at ht <;> cases ht⟩
+  | advance i dt =>
+    simp only [World.step, World.stepR]
+    split
+    · exact same w rfl
+    · rename_i n hn
+      have hmem : n ∈ w.nodes := List.mem_of_getElem? hn
+      refine ⟨set_ok w i _ hok (hok n hmem), fun j => ?_⟩
+      rw [set_dag w _ i n { n with now := n.now + dt } rfl hn [] rfl j]
+      exact ⟨_, rfl, by intro t ht; split at ht <;> cases ht⟩
+  | evict i =>
+    simp only [World.step, World.stepR]
+    split
+    · exact same w rfl
+    · rename_i n hn
+      have hmem : n ∈ w.nodes := List.mem_of_getElem? hn
+      refine ⟨set_ok w i _ hok (hok n hmem), fun j => ?_⟩
+      rw [set_dag w _ i n (evict n) rfl hn [] rfl j]
+      exact ⟨_, rfl, by intro t ht; split at ht <;> cases ht⟩
+  | create i tx pl env =>
+    simp only [World.step, World.stepR]
+    split
+    · exact same w rfl
+    · rename_i n hn
+      have hmem : n ∈ w.nodes := List.mem_of_getElem? hn
+      simp only [World.post]
+      rcases addTx_cases cfg env n tx pl with ⟨_, hc, hnode⟩ | ⟨_, hnode, _⟩
+      · have hd : (addTx cfg env n tx pl).1.dag = [tx] ++ n.dag := by rw [hnode]; rfl
+        refine ⟨set_ok w i _ hok (by rw [hnode]; exact dagOK_commit cfg n tx pl (hok n hmem) hc), fun j => ?_⟩
+        rw [set_dag w _ i n _ rfl hn [tx] hd j]
+        refine ⟨_, rfl, fun t ht => ?_⟩
+        split at ht
+        · simp only [List.mem_singleton] at ht
+          subst ht
+          exact ⟨(addCheck_added hc).1, by simp [stepTxs]⟩
+        · cases ht
+      · have hd : (addTx cfg env n tx pl).1.dag = [] ++ n.dag := by rw [hnode]; rfl
+        refine ⟨set_ok w i _ hok (by rw [hnode]; exact hok n hmem), fun j => ?_⟩
+        rw [set_dag w _ i n _ rfl hn [] hd j]
+        exact ⟨_, rfl, by intro t ht; split at ht <;> cases ht⟩
+
+
+/-! ### where transactions can come from -/
+
+def OrderSub (env : Env) : Prop := ∀ l t, t ∈ env.order l → t ∈ l
+
+theorem request_no_txs {m : Msg} (h : isRequest m = true) : msgTxs m = [] := by
+  cases m <;> simp [isRequest] at h <;> rfl
+
+/-- every transaction a handler puts into an outgoing message is one of the node's own -/
+theorem handle_out_txs (cfg : Cfg) (env : Env) (n : Node) (peer : Peer) (m : Msg) (hord : OrderSub env)
+    (o : Nat × Msg) (ho : o ∈ (handle cfg env n peer m).out) (t : Tx) (ht : t ∈ msgTxs o.2) : t ∈ n.dag := by
+  have list_case : ∀ (l : List Tx) (r : List NetTx) (cid : Cid), (∀ x ∈ l, x ∈ n.dag) → collect n l = some r →
+      o ∈ sendTransactionList cfg peer.key cid r → t ∈ n.dag := by
+    intro l r cid hl hc hso
+    obtain ⟨_, k, total, c, heq, hsub⟩ := sendTransactionList_mem cfg peer.key cid r o hso
+    rw [heq] at ht
+    simp only [msgTxs, List.mem_filterMap] at ht
+    obtain ⟨e, he, het⟩ := ht
+    obtain ⟨t', ht', hte, _⟩ := collect_elems n l r hc e (hsub e he)
+    rw [hte] at het
+    cases het
+    exact hl _ ht'
+  cases m with
+  | gossip x lc refs => rw [request_no_txs (gossip_req cfg n peer x lc refs o ho)] at ht; cases ht
+  | state cid x lc => rw [request_no_txs (state_req cfg n peer cid x lc o ho)] at ht; cases ht
+  | txSet cid a b i => rw [request_no_txs (set_req cfg env n peer cid a b i o ho)] at ht; cases ht
+  | txList cid a b txs => rw [request_no_txs (txlist_req cfg env n peer cid a b txs o ho)] at ht; cases ht
+  | listQuery cid refs =>
+    simp only [handle] at ho
+    unfold handleTransactionListQuery at ho
+    split at ho
+    · cases ho
+    · split at ho
+      · cases ho
+      · rename_i l hc
+        refine list_case _ l cid (fun x hx => ?_) hc ho
+        obtain ⟨r, _, hr⟩ := List.mem_filterMap.mp (hord _ _ hx)
+        exact getTx_mem hr
+  | rangeQuery cid a b =>
+    simp only [handle] at ho
+    unfold handleTransactionRangeQuery at ho
+    split at ho
+    · cases ho
+    · simp only at ho
+      split at ho
+      · cases ho
+      · rename_i l hc
+        exact list_case _ l cid (fun x hx => findBetween_mem hx) hc ho
+  | payloadQuery ref =>
+    simp only [handle] at ho
+    unfold handleTransactionPayloadQuery at ho
+    have hp : ∀ d, o ∈ emptyPayload peer d → msgTxs o.2 = [] := by
+      intro d h; simp only [emptyPayload, List.mem_singleton] at h; subst h; rfl
+    have hr : ∀ (tx : Tx), o ∈ (match readPayload n tx.payloadHash with
+              | none => ({ node := n, ret := "err:payload-not-found" } : HR)
+              | some p => { node := n, out := [(peer.key, .payload ref (some p))] }).out → msgTxs o.2 = [] := by
+      intro tx h
+      split at h
+      · cases h
+      · simp only [List.mem_singleton] at h; subst h; rfl
+    have : msgTxs o.2 = [] := by
+      split at ho
+      · exact hp _ ho
+      · simp only at ho
+        split at ho
+        · split at ho
+          · exact hp _ ho
+          · split at ho
+            · exact hp _ ho
+            · exact hp _ ho
+            · split at ho
+              · exact hp _ ho
+              · exact hr _ ho
+        · exact hr _ ho
+    rw [this] at ht; cases ht
+  | payload ref data =>
+    have : (handleTransactionPayload n ref data).out = [] := by
+      unfold handleTransactionPayload
+      split
+      · rfl
+      · split
+        · rfl
+        · split
+          · rfl
+          · split
+            · rfl
+            · split
+              · rfl
+              · simp only
+                split <;> rfl
+    simp only [handle, this] at ho
+    cases ho
+  | diagnostics => simp [handle] at ho
+  | unsupported => simp [handle] at ho
+
+/-- `U` holds for everything in any DAG and for every valid-verdict transaction in any message sent so far -/
+def InvU (U : Tx → Prop) (w : World) : Prop :=
+  (∀ n ∈ w.nodes, ∀ t ∈ n.dag, U t) ∧ (∀ pk ∈ w.sent, ∀ t ∈ msgTxs pk.msg, t.sigOK = true → U t)
+
+/-- what the adversary is limited by: any transaction with a GOOD signature verdict that it shows (injects or has
+    a node create) is in `U` (it cannot forge signatures); the sort oracle returns elements of its input -/
+def StepIn (U : Tx → Prop) : Step → Prop
+  | .inject _ _ m env => (∀ t ∈ msgTxs m, t.sigOK = true → U t) ∧ OrderSub env
+  | .create _ tx _ env => (tx.sigOK = true → U tx) ∧ OrderSub env
+  | .deliver _ env => OrderSub env
+  | _ => True
+
+
+theorem dag_of_mem (w : World) (n : Node) (h : n ∈ w.nodes) : ∃ j, World.dag w j = n.dag := by
+  obtain ⟨j, hj⟩ := List.getElem?_of_mem h
+  exact ⟨j, by simp [World.dag, hj]⟩
+
+theorem mem_dag_U {U : Tx → Prop} (w : World) (h : ∀ n ∈ w.nodes, ∀ t ∈ n.dag, U t) (j : Nat) : ∀ t ∈ World.dag w j, U t := by
+  intro t ht
+  unfold World.dag at ht
+  cases hn : w.nodes[j]? with
+  | none => simp [hn] at ht
+  | some n => simp [hn] at ht; exact h n (List.mem_of_getElem? hn) t ht
+
+theorem stepTxs_U {U : Tx → Prop} (w : World) (s : Step) (hi : InvU U w) (hs : StepIn U s) :
+    ∀ t ∈ stepTxs w s, t.sigOK = true → U t := by
+  intro t ht hsig
+  cases s with
+  | deliver i env =>
+    simp only [stepTxs] at ht
+    cases hp : w.sent[i]? with
+    | none => simp [hp] at ht
+    | some pk => simp [hp] at ht; exact hi.2 pk (List.mem_of_getElem? hp) t ht hsig
+  | inject src dst m env => exact hs.1 t ht hsig
+  | create i tx pl env => simp only [stepTxs, List.mem_singleton] at ht; subst ht; exact hs.1 hsig
+  | tick i p => cases ht
+  | advance i d => cases ht
+  | evict i => cases ht
+
+def StepOrd : Step → Prop
+  | .deliver _ env => OrderSub env
+  | .inject _ _ _ env => OrderSub env
+  | _ => True
+
+/-- messages appended to the log by a step only carry transactions of the acting node's DAG -/
+theorem step_sent (cfg : Cfg) (w : World) (s : Step) (hord : StepOrd s) :
+    ∃ news, (w.step cfg s).sent = w.sent ++ news ∧ ∀ pk ∈ news, ∀ t ∈ msgTxs pk.msg, ∃ n ∈ w.nodes, t ∈ n.dag := by
+  have same : ∀ w' : World, w'.sent = w.sent → ∃ news, w'.sent = w.sent ++ news ∧
+      ∀ pk ∈ news, ∀ t ∈ msgTxs pk.msg, ∃ n ∈ w.nodes, t ∈ n.dag := fun w' h => ⟨[], by simp [h], by simp⟩
+  have recv : ∀ (src dst : Nat) (m : Msg) (env : Env), OrderSub env →
+      ∃ news, (w.recv cfg src dst m env).1.sent = w.sent ++ news ∧
+        ∀ pk ∈ news, ∀ t ∈ msgTxs pk.msg, ∃ n ∈ w.nodes, t ∈ n.dag := by
+    intro src dst m env ho
+    unfold World.recv
+    split
+    · exact same w rfl
+    · rename_i n hn
+      split
+      · exact same w rfl
+      · rename_i p _
+        refine ⟨_, rfl, fun pk hpk t ht => ?_⟩
+        simp only [List.mem_map] at hpk
+        obtain ⟨o, ho', rfl⟩ := hpk
+        rcases List.mem_append.mp ho' with h | h
+        · exact ⟨n, List.mem_of_getElem? hn, handle_out_txs cfg env n p m ho o h t ht⟩
+        · obtain ⟨r, hr⟩ := retryOut_out env _ _ o h
+          simp only at ht
+          rw [hr] at ht; cases ht
+  cases s with
+  | deliver i env =>
+    simp only [World.step, World.stepR]
+    split
+    · exact same w rfl
+    · rename_i pk _; exact recv pk.src pk.dst pk.msg env hord
+  | inject src dst m env => simp only [World.step, World.stepR]; exact recv src dst m env hord
+  | tick i peer =>
+    simp only [World.step, World.stepR]
+    split
+    · exact same w rfl
+    · rename_i n hn
+      refine ⟨_, rfl, fun pk hpk t ht => ?_⟩
+      simp only [List.mem_map] at hpk
+      obtain ⟨o, ho', rfl⟩ := hpk
+      unfold gossipTick at ho'
+      split at ho'
+      · cases ho'
+      · split at ho'
+        · simp only [List.mem_singleton] at ho'; subst ho'; cases ht
+        · cases ho'
+  | advance i dt => simp only [World.step, World.stepR]; split <;> exact same _ rfl
+  | evict i => simp only [World.step, World.stepR]; split <;> exact same _ rfl
+  | create i tx pl env =>
+    simp only [World.step, World.stepR]
+    split
+    · exact same w rfl
+    · rename_i n hn
+      refine ⟨_, rfl, fun pk hpk t ht => ?_⟩
+      simp only [World.post, List.mem_map] at hpk
+      obtain ⟨o, ho', rfl⟩ := hpk
+      rcases List.mem_append.mp ho' with h | h
+      · have := addTx_out cfg env n tx pl o h
+        simp only at ht
+        rw [this] at ht; cases ht
+      · obtain ⟨r, hr⟩ := retryOut_out env _ _ o h
+        simp only at ht
+        rw [hr] at ht; cases ht
+
+theorem step_invU (cfg : Cfg) (U : Tx → Prop) (w : World) (s : Step) (hok : ∀ n ∈ w.nodes, DagOK n.dag)
+    (hi : InvU U w) (hs : StepIn U s) : InvU U (w.step cfg s) := by
+  obtain ⟨_, hd⟩ := step_dag cfg w s hok
+  constructor
+  · intro n hn t ht
+    obtain ⟨j, hj⟩ := dag_of_mem _ n hn
+    obtain ⟨added, hadd, hmem⟩ := hd j
+    rw [← hj, hadd] at ht
+    rcases List.mem_append.mp ht with h | h
+    · exact stepTxs_U w s hi hs t (hmem t h).2 (hmem t h).1
+    · exact mem_dag_U w hi.1 j t h
+  · have hord : StepOrd s := by
+      cases s with
+      | deliver i env => exact hs
+      | inject a b m env => exact hs.2
+      | tick a b => trivial
+      | advance a b => trivial
+      | evict a => trivial
+      | create a b c d => trivial
+    obtain ⟨news, hsent, hnews⟩ := step_sent cfg w s hord
+    intro pk hpk t ht hsig
+    rw [hsent] at hpk
+    rcases List.mem_append.mp hpk with h | h
+    · exact hi.2 pk h t ht hsig
+    · obtain ⟨n, hn, htn⟩ := hnews pk h t ht
+      exact hi.1 n hn t htn
+
+
 end Nuts.Proto.L
